@@ -74,6 +74,34 @@ CLAIMED["C14"] = {
     "design": "DESIGN.md section 3 C14",
 }
 
+CLAIMED["C03"] = {
+    "text": "Bounded model checking of the real events.get_key (with _key_name, decodable, could_be_unfinished_*) against "
+            "the LIVE key tables: n symbolic bytes (all 256**n strings, n up to MAX_KEYPRESS_SIZE+1) driven incrementally "
+            "exactly as Input.find_key does, in utf-8/ascii/latin-1, with and without buffered bytes, all three naming "
+            "modes per path. z3 proves per path: bytes naming returns exactly the bytes; no failure on any prefix of a "
+            "valid stream; more input is requested only while the bytes can still grow into a table sequence or a "
+            "character, and always while they still can and bytes are buffered; table sequences come back under their "
+            "table name; characters as themselves; no pending state as long as the longest sequence. Every table entry "
+            "is additionally replayed concretely in every encoding.",
+    "note": "Trusted: CPython, CrossHair + z3 and its codec models (violations are replayed on the real codecs), the "
+            "SymTable wrapper (self-tested against the dicts), our UTF-8 table (self-tested against CPython's codec). "
+            "quick restricts utf-8 strings of length 5..7 to members/prefixes of the tables. Known finding "
+            "C03-prefix-then-nonascii is excluded as a region while its witness still fails.",
+    "technique": TECH + "; SymTable domain (table membership as one z3 disjunction), oracle predicates as z3 terms over the bytes",
+    "design": "DESIGN.md section 3 C03",
+}
+CLAIMED["C20"] = {
+    "text": "(a) the C03 decoder instances assert on every path that the three naming modes return None together, raise "
+            "the same exception together and bytes naming returns exactly the bytes; (b) one z3 query per length shows no "
+            "byte string has a curses name without a curtsies name; (c) symbolic execution of the real "
+            "KeyMap.__getitem__ over symbolic key names: every name returned for a valid configuration key is a value of "
+            "the live CURTSIES_NAMES (a name the decoder produces, by C03), '' maps to (), invalid keys raise KeyError.",
+    "note": "Trusted as C03. Valid configuration names: C-<a..z>, M-<printable non-space ASCII>, F1..F12, SPECIALS. "
+            "quick: decoder instances for utf-8 n <= 3 only; characters below U+0100; F0..F30.",
+    "technique": TECH + "; SymTable domain; direct z3 query over the live tables",
+    "design": "DESIGN.md section 3 C20",
+}
+
 NOT_YET = {}
 
 ALL = ["C%02d" % i for i in range(1, 21)]
